@@ -5057,6 +5057,16 @@ func genHtlcSigValidationJobs(chanState *chanstate.OpenChannel,
 			htlcIndex = htlc.HtlcIndex
 			incoming = true
 
+			// The second-level aux leaf is needed by both the
+			// sighash closure below and the aux verify job.
+			auxLeaf = fn.FlatMapOption(func(
+				l CommitAuxLeaves) input.AuxTapLeaf {
+
+				leaves := l.IncomingHtlcLeaves
+				idx := htlc.HtlcIndex
+				return leaves[idx].SecondLevelLeaf
+			})(auxResult.AuxLeaves)
+
 			sigHash = func() ([]byte, error) {
 				op := wire.OutPoint{
 					Hash:  txHash,
@@ -5065,14 +5075,6 @@ func genHtlcSigValidationJobs(chanState *chanstate.OpenChannel,
 
 				htlcFee := HtlcSuccessFee(chanType, feePerKw)
 				outputAmt := htlc.Amount.ToSatoshis() - htlcFee
-
-				auxLeaf := fn.FlatMapOption(func(
-					l CommitAuxLeaves) input.AuxTapLeaf {
-
-					leaves := l.IncomingHtlcLeaves
-					idx := htlc.HtlcIndex
-					return leaves[idx].SecondLevelLeaf
-				})(auxResult.AuxLeaves)
 
 				successTx, err := CreateHtlcSuccessTx(
 					chanType, isLocalInitiator, op,
@@ -5150,6 +5152,16 @@ func genHtlcSigValidationJobs(chanState *chanstate.OpenChannel,
 
 			htlcIndex = htlc.HtlcIndex
 
+			// The second-level aux leaf is needed by both the
+			// sighash closure below and the aux verify job.
+			auxLeaf = fn.FlatMapOption(func(
+				l CommitAuxLeaves) input.AuxTapLeaf {
+
+				leaves := l.OutgoingHtlcLeaves
+				idx := htlc.HtlcIndex
+				return leaves[idx].SecondLevelLeaf
+			})(auxResult.AuxLeaves)
+
 			sigHash = func() ([]byte, error) {
 				op := wire.OutPoint{
 					Hash:  txHash,
@@ -5158,14 +5170,6 @@ func genHtlcSigValidationJobs(chanState *chanstate.OpenChannel,
 
 				htlcFee := HtlcTimeoutFee(chanType, feePerKw)
 				outputAmt := htlc.Amount.ToSatoshis() - htlcFee
-
-				auxLeaf := fn.FlatMapOption(func(
-					l CommitAuxLeaves) input.AuxTapLeaf {
-
-					leaves := l.OutgoingHtlcLeaves
-					idx := htlc.HtlcIndex
-					return leaves[idx].SecondLevelLeaf
-				})(auxResult.AuxLeaves)
 
 				timeoutTx, err := CreateHtlcTimeoutTx(
 					chanType, isLocalInitiator, op,
